@@ -1,5 +1,6 @@
 import CvssVerif.Model.Heap
 import CvssVerif.Proofs.Indep
+import CvssVerif.Proofs.Effects
 /-
   C15 — queries never modify a metrics object; results are deterministic and history-free.
 
@@ -63,5 +64,19 @@ theorem twin (as : List ObjOp) (o : AnyObj) :
 
 /-- non-vacuity: a decode really is a writing operation and a query is not -/
 example : (ObjOp.decode .base b!"CVSS:3.1/AV:N").writes = true ∧ (ObjOp.query .base).writes = false := ⟨rfl, rfl⟩
+
+/-- **Tie of the purity assumption to the source.** The write-set table extracted from the
+    library's SSA form on every run (`Generated/Effects.lean`): of all exported functions and
+    methods of the five packages only the six `Decode` methods write through a parameter, and
+    only through their receiver; none writes a package-level variable or lets its address escape.
+    This is what `ObjOp.writes` assumes. -/
+theorem code_writes_only_in_decode : Gen.Effects.exported.all Effects.rowOk = true := Effects.all_rows_ok
+
+/-- every operation the model has (queries, accessors, constructors of reports, exports, the 52
+    names functions) is a row of that table -/
+theorem code_effects_cover_model :
+    Effects.modelled.all (fun n => Gen.Effects.exported.any fun r => r.1 == n) = true ∧
+    (Gen.Effects.exported.filter fun r => Effects.isPrefix b!"v3/report/names." r.1).length = 52 :=
+  ⟨Effects.modelled_present, Effects.names_functions_present⟩
 
 end CvssVerif.Props.C15
